@@ -911,6 +911,11 @@ spifconf_file_is_open(FILE *fp)
             && (st_new.st_dev == st_old.st_dev) && (st_new.st_ino == st_old.st_ino)) {
             return TRUE;
         }
+        /* A preprocessed file is read from its temporary copy; the file it was made from is still being parsed. */
+        if ((fstate[i].flags & FILE_PREPROC) && fstate[i].path && !stat((char *) fstate[i].path, &st_old)
+            && (st_new.st_dev == st_old.st_dev) && (st_new.st_ino == st_old.st_ino)) {
+            return TRUE;
+        }
     }
     return FALSE;
 }
